@@ -245,6 +245,12 @@ func (ex *Exec) runState(st *State) {
 		}
 	}()
 	for st.status == "" {
+		st.steps++
+		if st.steps > maxPathSteps {
+			// a concrete loop that never ends (e.g. a draw loop that stopped advancing)
+			ex.endPath(st, "diverged", fmt.Sprintf("more than %d instructions on one path @ %s", maxPathSteps, ex.where(st)))
+			return
+		}
 		if ex.instrs&0x3fff == 0 && time.Now().After(ex.deadline) {
 			ex.endPath(st, "timeout", "deadline")
 			return
@@ -357,6 +363,8 @@ func (ex *Exec) jump(fr *Frame, to *ssa.BasicBlock) {
 	}
 	fr.ip = n
 }
+
+const maxPathSteps = 60000000
 
 var theProgram *Program
 
